@@ -1,6 +1,6 @@
 (* MODEL of the delegating handlers of /repo:
      cli/shell.py env.py xargs.py find.py fd.py docker.py(exec) kubectl.py(exec) arch.py
-         caffeinate.py script.py uv.py(run)      classify()
+         caffeinate.py script.py uv.py(run) tar.py(--to-command)      classify()
    Faithful to the code as it is, including what looks wrong.  Flag tables come from Gen/Tables.v.
    The recursive analysis of an inner command string is an oracle (Section variable). *)
 From DippyV Require Import Base.Str Base.Verdict Gen.Tables Model.BashQuote.
@@ -298,6 +298,22 @@ Definition uv_h (tokens : list str) : option hres :=
   | _ => None
   end.
 
+(* ------------------------------------------------------------------ cli/tar.py (--to-command path) *)
+Fixpoint tar_to_command (l : list str) : option str :=      (* l = tokens[1:] : the FIRST --to-command *)
+  match l with
+  | [] => None
+  | t :: r =>
+      if starts "--to-command=" t then Some (skipn 13 t)
+      else if is "--to-command" t && nonempty r then Some (hd [] r)
+      else tar_to_command r
+  end.
+(* None: no (non-empty) --to-command - the operation detection is not modelled *)
+Definition tar_h (tokens : list str) : option hres :=
+  match tar_to_command (tl' tokens) with
+  | Some (c :: cs) => Some (HString (c :: cs))
+  | _ => None
+  end.
+
 (* ------------------------------------------------------------------ dispatch (cli/__init__.py get_handler) *)
 (* Some h: the command has one of the handlers modelled above and the input is on a modelled path *)
 Definition modelled (tokens : list str) : option hres :=
@@ -315,6 +331,7 @@ Definition modelled (tokens : list str) : option hres :=
       else if mem_str base CAFFEINATE_COMMANDS then Some (caff_h tokens)
       else if mem_str base SCRIPT_COMMANDS then Some (script_h tokens)
       else if mem_str base UV_COMMANDS then uv_h tokens
+      else if mem_str base TAR_COMMANDS then tar_h tokens
       else None
   end.
 
